@@ -1,4 +1,4 @@
-(* GENERATED on every run by harness/props/c14.py from the Flask app of /tmp/refchk_C14_r2 - do not edit *)
+(* GENERATED on every run by harness/props/c14.py from the Flask app of /repo - do not edit *)
 From Coq Require Import List String ZArith.
 Require Import BertE.Model.Http.
 Import ListNotations.
